@@ -13,6 +13,7 @@ import DadiVerif.Model.FromPhi
    bbconv i nInd a b P                             -> ok v                 `BetaBinomConvolution`
    part x n lo hi                                  -> ok p;p;…             `Numerics.part`
    specnd kind …                                   -> ok <nd>              the pointwise (un-tabulated) definitions, small inputs
+   marginalize over nd                             -> ok <kept positions> <nd> | err AxisError | err IndexError   `Spectrum.marginalize(over)`
    het = - | xx | yy | zz | aa ; force = 0 | 1 ; props = - | <nd matrix> ; grids = g1;g2;… -/
 namespace DadiVerif.Driver.FromPhi
 open DadiVerif DadiVerif.Proto DadiVerif.FromPhi
@@ -86,6 +87,11 @@ def handle (toks : List String) : Option String :=
       else
         let ops := specOps kind (hetOf het) ns grids Fs pls
         some ("ok " ++ showND (ND.ofFn (ns.map (· + 1)) (sampleND ops T.get)))
+  | ["marginalize", over, nd] => do
+      let over ← parseNatList over; let T ← parseND nd
+      match marginalize over T with
+      | .ok (ids, R) => some ("ok " ++ (if ids.isEmpty then "-" else ",".intercalate (ids.map toString)) ++ " " ++ showND R)
+      | .error e => some ("err " ++ e)
   | ["spec1d", n, g, phi] => do
       let n ← n.toNat?; let g ← parseList g; let phi ← parseList phi
       some ("ok " ++ showList ((List.range (n + 1)).map (fromPhi1D n g.length (gridFn g.toArray) (gridFn phi.toArray))))
